@@ -12,6 +12,7 @@ import (
 	"strings"
 	"sync"
 	"testing"
+	"unicode/utf8"
 
 	"github.com/titpetric/vuego"
 	"pgregory.net/rapid"
@@ -118,6 +119,7 @@ var tokens = []string{
 	"&amp;", "&quot;", "&#x3c;", "&#60;", "{{secret|upper}}", "</script>", "<script>", "<!--", "-->", "<b x=y>",
 	` :x="secret"`, ` v-html="secret"`, "x", "/", "\\", "\n", "&gt;", "&apos;", "<img src=x onerror=a>", "{{ secret + 1 }}", "]]>", "<![CDATA[",
 	"</textarea>", "</title>", "</pre>", "</option>", "</select>", "</td>", "</table>", "</li>", "</button>", "</h1>", "</a>", "</div>", "</style>", "</template>", "<p>", "<a href=x>", "<td>", "<plaintext>",
+	"{}", "[]", `{"a":1}`, `[1,"<b>"]`, "{", "[", "null", "true", "0",
 }
 
 const coreN = 14
@@ -215,7 +217,7 @@ func buildSink(c Case, n nb) program {
 		return program{files: map[string]string{
 			"page.vuego": wrap(c.Enc, `<template include="c.vuego" p="`+n.LS+`{{ v }}`+n.RS+`"></template><p>after {{ secretless }}</p>`),
 			"c.vuego":    `<div><p data-m="s">{{ p }}</p><i title="{{ p }}" :lang="p">x</i></div>`,
-		}, useNb: true, jsonish: true}
+		}, useNb: true}
 	case "incbound":
 		return program{files: map[string]string{
 			"page.vuego": wrap(c.Enc, `<template include="c.vuego" :p="v"></template>`),
@@ -231,7 +233,7 @@ func buildSink(c Case, n nb) program {
 		return program{files: map[string]string{
 			"page.vuego": wrap(c.Enc, `<template include="c.vuego" :p="v" q="`+n.LS+`{{ v }}`+n.RS+`"></template>`),
 			"c.vuego":    `<template :required="p"><div><p data-m="s">{{ q }}</p><i title="{{ p }}" :lang="p">{{ p }}</i><u v-for="o in one" v-text="p"></u></div></template>`,
-		}, useNb: true, jsonish: true}
+		}, useNb: true}
 	case "inctplrootattr":
 		return program{files: map[string]string{
 			"page.vuego": wrap(c.Enc, `<template include="c.vuego" :p="v"></template>`),
@@ -537,3 +539,41 @@ func TestProp(t *testing.T) {
 }
 
 func TestReplay(t *testing.T) { run.ReplayMain(t, prop, replay) }
+
+// FuzzInert: native coverage-guided fuzzing of the value (thorough tier); the selector picks the
+// sink, enclosure, neighbourhood, carrier and component prelude.
+func FuzzInert(f *testing.F) {
+	for i, tk := range tokens {
+		f.Add(tk, uint32(i*7919))
+		f.Add("a"+tk+tk+"b", uint32(i*104729))
+	}
+	for _, tag := range containerTags {
+		f.Add("</"+tag+"><img src=x onerror=a>", uint32(len(tag)))
+	}
+	rec := ev.New(prop)
+	f.Fuzz(func(t *testing.T, v string, sel uint32) {
+		if !utf8.ValidString(v) || strings.ContainsRune(v, 0) || len(v) > 200 {
+			t.Skip()
+		}
+		c := Case{Value: v}
+		c.Sink = sinks[int(sel)%len(sinks)]
+		sel /= uint32(len(sinks))
+		c.Enc = encs[int(sel)%len(encs)]
+		sel /= uint32(len(encs))
+		c.Nb = int(sel) % len(neighbourhoods)
+		sel /= uint32(len(neighbourhoods))
+		c.Pre = int(sel) % len(preludes)
+		sel /= uint32(len(preludes))
+		if sel%3 == 0 {
+			c.Carrier = carriers[int(sel/3)%len(carriers)]
+		}
+		if !applicable(c) {
+			t.Skip()
+		}
+		if err := run.Safe(func() error { return check(c) }); err != nil {
+			rec.Fail("fuzz", c, err)
+			rec.Finish()
+			t.Fatalf("%+v: %v", c, err)
+		}
+	})
+}
